@@ -161,12 +161,12 @@ PROPS['C09'] = {
                  'struct-variant field and alias target is related to its old value by a recursive rewrite relation',
     'level_text': 'For every type expression (any depth through Vec / array / slice / Option / HashMap / generic arguments): after check_type every '
                   'mentioned name for which the rename table has an entry - as a plain type and as a generic type - is the renamed name, and nothing '
-                  'else in the expression changes (structure, other names, generic parameters).',
+                  'else in the expression changes (structure, other names); a name that is a generic parameter of the item being rewritten is never replaced.',
     'level_note': 'Kernel at the IR level only: which name a definition is printed under, and prefixing, are format strings in six back ends (text '
-                  'emission, not under contract); the loop over a generic type\'s arguments (slice::IterMut) is outlined with an assumed element-wise '
+                  'emission, not under contract: bounded stand-in cli_refnames compares defined and used names in the emitted text; known finding: Go defines renamed enums / aliases under the Rust name); the loop over a generic type\'s arguments (slice::IterMut) is outlined with an assumed element-wise '
                   'effect; resolve_renamed is a pure stub; the loops applying check_type to every field / variant / alias are not under contract.',
     'design_ref': 'DESIGN.md section 10.7',
-    'bounded': ['recon'],
+    'bounded': ['recon', 'cli_refnames'],
 }
 PROPS['C07']['units'].append('recon')
 PROPS['C07']['units'].append('genloop')
